@@ -283,11 +283,21 @@ def c07_exprs(rnd, budget):
     groups = {"typed": typed, "ip_path": iph, "cmp": cmps, "bin": [CMP("Eq", b, C(I(2))) for b in bins] + bins, "call": calls, "chain": chains, "gen": gens, "l2cmp": l2, "neg": negs, "bool": bools, "not": nots, "helper": helpers, "gen2": gen2, "unsupported": unsup}
     total = sum(len(g) for g in groups.values())
     out = []
+    # groups of moderate size are ALWAYS taken completely (a sample of them once lost the only expressions that tell a
+    # tuple display from a list display); only the two product groups are sampled, stratified by operator
+    big = {"l2cmp": 2000, "bool": 3000}
     for name, g in groups.items():
-        if budget is None or total <= budget:
+        if budget is None or total <= budget or name not in big:
             pick = g
         else:
-            k = max(200, int(len(g) * budget / total))
-            pick = g if len(g) <= k else rnd.sample(g, k)
+            k = big[name]
+            strata = {}
+            for e in g:
+                strata.setdefault((e.get("op"), e["a"]["k"], e["a"].get("op"), e["b"]["k"], e["b"].get("op")), []).append(e)
+            pick = []
+            per = max(1, k // len(strata))
+            for key in sorted(strata, key=repr):
+                s = strata[key]
+                pick += s if len(s) <= per else rnd.sample(s, per)
         out += [(e, {"group": name}) for e in pick]
     return out, total
